@@ -147,3 +147,6 @@
 ; the two parts of a split have no byte the whole does not have
 (assert (forall ((s Bytes) (p Bytes) (c Int)) (! (=> (and (noByte s c) (contains s p)) (noByte (splitTail s p) c)) :pattern ((noByte (splitTail s p) c)))))
 (assert (forall ((s Bytes) (p Bytes) (c Int)) (! (=> (noByte s c) (noByte (splitHead s p) c)) :pattern ((noByte (splitHead s p) c)))))
+; a two-byte separator of two different bytes cannot straddle the end of a text that does not contain it: the split of
+; a ++ p ++ b is (a, b) as for one-byte separators
+(assert (forall ((a Bytes) (p Bytes) (b Bytes)) (! (=> (and (= (blen p) 2) (not (= (bat p 0) (bat p 1))) (not (contains a p))) (and (= (splitHead (bcat a (bcat p b)) p) a) (= (splitTail (bcat a (bcat p b)) p) b) (contains (bcat a (bcat p b)) p))) :pattern ((splitHead (bcat a (bcat p b)) p)) :pattern ((splitTail (bcat a (bcat p b)) p)) :pattern ((contains (bcat a (bcat p b)) p)))))
